@@ -387,6 +387,22 @@ class Gen:
             body = self.sub("num", d)
             del self.bound[saved:]
             return ("fundef", ["p"], body)
+        if c == "call" and ty == "num" and r.random() < 0.12:
+            # a user-defined function bound under the NAME OF A BUILT-IN (by a context entry, a formal parameter or an
+            # iteration variable) and invoked positionally: any binding shadows the built-in
+            bif = r.choice(["abs", "floor", "ceiling", "count", "sum", "max", "min", "sqrt", "number", "not", "string length", "decimal"])
+            saved = len(self.bound)
+            self.bound.append(("p", "num"))
+            body = ("add", self.sub("num", d + 1), ("name", "p"))
+            del self.bound[saved:]
+            fn = ("fundef", ["p"], body)
+            arg = self.sub("num", d + 1)
+            shape = r.randrange(3)
+            if shape == 0:
+                return ("path", ("ctx", [(bif, fn), ("r", ("call", ("name", bif), [arg]))]), "r")
+            if shape == 1:
+                return ("call", ("fundef", [bif, "zx"], ("call", ("name", bif), [("name", "zx")])), [fn, arg])
+            return ("filter", ("for", [(bif, ("dom_list", ("list", [fn])))], ("call", ("name", bif), [arg])), ("num", "1"), "index")
         if c in ("call", "callnamed"):
             # function either bound in the scope (fa: 2 params p,q ; fb: 1 param p) or defined inline
             which = r.random()
